@@ -60,6 +60,7 @@ class ExecutorBase {
       const N* node,
       float poolRecursiveLoadFactor = 3.0f) {
     InlineDepthGuard dGuard;
+    DISPENSO_VERIF_NOTE("InlGraphEval", node, PerPoolPerThreadInfo::inlineDepth(), 0);
 
     // Process nodes in a loop, continuing inline with first ready dependent
     // to avoid task scheduling overhead on the critical path
@@ -83,6 +84,7 @@ class ExecutorBase {
                 poolRecursiveLoadFactor);
           } else {
             // Depth limit reached: force enqueue to prevent stack overflow
+            DISPENSO_VERIF_NOTE("InlGraphDefer", dep, PerPoolPerThreadInfo::inlineDepth(), 0);
             tasks.schedule(
                 [&tasks, dep, poolRecursiveLoadFactor]() {
                   evaluateNodeConcurrently(tasks, dep, poolRecursiveLoadFactor);
